@@ -21,6 +21,9 @@ CHECKS = {
  "C02": dict(level="exploration", technique="bounded-exhaustive enumeration of rule-violator subsets on valid encodings and of builder call sequences, against a reference validity predicate",
    text="89 concrete violators of the BPv7 structural rules (several forms per rule plus valid-side boundary cases) are applied, alone and in all pairs (thorough: selected triples), to 30 valid base encodings through a reference CBOR tree editor with CRCs recomputed; the real parser must not accept any encoding the reference predicate judges violating. Producer side: every builder call sequence (valid 5-call base combined with all sequences of extra calls before/after/inside) and every BuildFromMap map up to a bound must yield only bundles that satisfy the predicate and are accepted by the parser. Fragment/reassembly outputs are judged by the same predicate in C09/C10.",
    note="Trusted: the reference predicate (mc/ref Rules) transcribed from the statement; accept => valid is the deciding direction, valid-but-rejected is only counted. Panics are left to C04.", design="3/C02"),
+ "C17": dict(level="exploration", technique="exhaustive enumeration of message values at field extremes, of all 256 values of every code byte, of 2-3 message streams and of all short endpoint strings",
+   text="Every TCPCLv4 message type with each field at 0/1/max and lengths on the CBOR/width boundaries, all streams of 2-3 messages from a 14-message alphabet (exact consumption per message), all 256 values of every one-byte code/magic/version field (valid set accepted, rest rejected), discovery announcements over all 256 CLA type codes, WebSocket-agent messages, all 65536 BBC fragment headers, bundle IDs, creation timestamps, all 81 status-item combinations, all 256 administrative-record type codes; endpoint URIs: every string up to length 6 (quick) / 7 (thorough) over a 13-symbol grammar alphabet plus near-misses, and structure->text->structure for ipn/dtn endpoints over the width boundaries. Exhaustive within these bounds.",
+   note="Trusted: bridge files exposing unexported codecs (mc/bridge, no logic). 'Unknown reason codes rejected' applied to TCPCLv4 code bytes only (closed sets).", design="3/C17"),
 }
 NA_REASON = "check not built yet in this round (planned in DESIGN.md section 3)"
 
